@@ -545,7 +545,7 @@ def run(replay=None):
     acts = ['NewKeys', 'GetKeys', 'KeyForPath', 'NewAccount', 'MarkUsed']
     ex = ThreadPoolExecutor(3)
     mc1 = ex.submit(common.model_check, 'MC_WalletKeys', 'MC_WalletKeys_thorough.cfg' if thorough else 'MC_WalletKeys.cfg',
-                    workers=4, expect_actions=acts)
+                    workers=8 if thorough else 4, expect_actions=acts)
     mc2 = ex.submit(common.model_check, 'MC_WalletKeys', 'MC_WalletKeys_watch_thorough.cfg' if thorough else 'MC_WalletKeys_watch.cfg',
                     workers=3, expect_actions=acts)
     mc3 = ex.submit(common.model_check, 'MC_WalletKeys', 'MC_WalletKeys_ms_thorough.cfg' if thorough else 'MC_WalletKeys_ms.cfg',
